@@ -1510,7 +1510,7 @@ fn gen_c05_bytes(r: &mut Rng, id: usize) -> Group {
 }
 
 fn gen_c05_deep(r: &mut Rng, id: usize) -> Group {
-    let depth = *r.pick(&[1usize, 2, 8, 31, 32, 33, 48, 63, 64]);
+    let depth = *r.pick(&[1usize, 2, 8, 16, 31, 32, 33, 34, 48, 63, 64, 65]);
     let mut open = String::new();
     let mut close = String::new();
     for _ in 0..depth {
@@ -1543,9 +1543,6 @@ fn gen_c05_deep(r: &mut Rng, id: usize) -> Group {
             kind = "data";
             if r.chance(40) {
                 c.spec.selects.push(r.ps(&["(size .)=x", "(stringify .)=x", ".k.k.k=x", "#0#0#0=x", "(= . .)=x", "(sort (push [] . .))=x"]).to_string());
-            }
-            if r.chance(20) {
-                c.spec.jstyle = Some("pretty".into());
             }
             c.sources.push(stdin_src(text.into_bytes()));
         }
@@ -1581,6 +1578,20 @@ fn gen_c05_deep(r: &mut Rng, id: usize) -> Group {
             c.spec.selects.push(format!("(parse_selection {})=x", json_lit(&e)));
             c.sources.push(stdin_src(b"1 [2]".to_vec()));
         }
+    }
+    // every printer has to get down there and back: the three JSON styles, text and csv cells
+    match r.below(8) {
+        0 | 1 | 2 => c.spec.jstyle = Some("pretty".into()),
+        3 => c.spec.jstyle = Some("consise".into()),
+        4 => {
+            c.spec.style = Some("text".into());
+            if c.spec.selects.is_empty() { c.spec.selects.push(".=x".into()); }
+        }
+        5 => {
+            c.spec.style = Some("csv".into());
+            if c.spec.selects.is_empty() { c.spec.selects.push(".=x".into()); }
+        }
+        _ => {}
     }
     let mut g = Group::new(vec![c]);
     g.labels.push(format!("kind:deep:{kind}"));
